@@ -62,15 +62,18 @@ def boundaries(t):
             for ss in ("00", "59", "60", "61", "1"):
                 times.append(f"{hh}:{mi}:{ss}")
     fracs = ["", ".", ".1", ".12", ".123", ".1234", ".12345", ".123456", ".1234567", ".١٢٣"]
+    # years with leading zeros (0001..0999), the last year, leap days
+    odd_years = ["00010101", "09991231", "01000615", "99991231", "20240229", "20000229", "19000228", "10000101"]
     if t in ("UTCDATEONLY", "LOCALMKTDATE"):
-        out = dates + ["2023921", "202309211", "2023-09-21", "20230921 ", " 20230921", "٢٠٢٣٠٩٢١"]
+        out = dates + odd_years + ["2023921", "202309211", "2023-09-21", "20230921 ", " 20230921", "٢٠٢٣٠٩٢١"]
     elif t == "UTCTIMEONLY":
         out = times + ["14:00:00" + f for f in fracs] + ["1:2:3", "14:0:0", "140000", " 14:00:00", "14:00:00 "]
     elif t == "UTCTIMESTAMP":
         out = [d + "-14:00:00" for d in dates] + ["20230921-" + x for x in times] + ["20230921-14:00:00" + f for f in fracs]
+        out += [d + "-23:59:59" for d in odd_years] + [d + "-00:00:00.000" for d in odd_years] + ["20161231-23:59:60", "20230921-00:00:00.999"]
         out += ["2023115-1:2:3", "20230921 14:00:00", "20230921T14:00:00", "20230921-14:00", "20230921", "20230921-140000", " 20230921-14:00:00"]
     elif t == "MONTHYEAR":
-        out = [d[:6] for d in dates] + dates + ["2023" + mm + w for mm in ("00", "01", "12", "13") for w in ("w0", "w1", "w5", "w6", "W1", "w", "ww")]
+        out = [d[:6] for d in dates] + dates + [d[:6] for d in odd_years] + odd_years + ["2023" + mm + w for mm in ("00", "01", "12", "13") for w in ("w0", "w1", "w5", "w6", "W1", "w", "ww")]
         out += ["20239", "2023 9", "2023091", "202309w10", "2023w1", "w1"]
     return out
 
@@ -175,7 +178,7 @@ def type_shard(acc, ftype):
             for s in L.must_accept_samples(t):
                 j.one(field, t, s, origin)
         if t in NUMERIC:
-            for s in ["32", "31", "00", "-0", "2147483648", "99999999999999999999", "1" * 400, "0.1", "1.0", "1e5", "1E5", "0x10", "1_000", "٣", "１２", "1.", ".5", "-.5",
+            for s in ["32", "31", "00", "-0", "2147483648", "99999999999999999999", "1" * 400, "1" * 308, "1" * 309, "9" * 310, "-" + "1" * 309, "0" * 4301, "0" * 5000, "0" * 4400 + "7", "-" + "0" * 4301, "1" * 4301, "1" * 309 + ".5", "0." + "0" * 400 + "1", "0.1", "1.0", "1e5", "1E5", "0x10", "1_000", "٣", "１２", "1.", ".5", "-.5",
                       "--1", "1-", "-", ".", "inf", "nan", "-inf", "Infinity", "NaN", " 1", "1 ", "\t1", "1\n", "+1", "1,000", "1.5.5", "1..5"]:
                 j.one(field, t, s, origin)
         if t in LAYOUT:
